@@ -2,6 +2,8 @@ package mon
 
 import (
 	"fmt"
+	"github.com/xjslang/xjs/lexer"
+	"github.com/xjslang/xjs/parser"
 	"math/rand/v2"
 	"sort"
 	"strings"
@@ -243,13 +245,41 @@ func checkC08Prog(t *fw.T, r *rand.Rand, prog *gen.Node) {
 		l = randomLayout(r)
 	}
 	rd := gen.Render(prog, r, l.E, l.L)
+	// a quarter of the sources gets block-comment lines that a lexer plugin skips (it consumes them through the public
+	// Lexer.ReadChar before handing over to next()): the tokens behind them are where they are
+	plugin := false
+	if r.IntN(4) == 0 {
+		if rd2 := withBlockCommentLines(rd, r); rd2 != nil {
+			rd, plugin = rd2, true
+			t.Count("sources_with_block_comments_skipped_by_a_lexer_plugin", 1)
+		}
+	}
 	var po ParseOut
-	if !t.Guard("parse", func() map[string]any { return map[string]any{"source": rd.Src} }, func() { po = parse(rd.Src, Mode{}) }) {
+	if !t.Guard("parse", func() map[string]any { return map[string]any{"source": rd.Src} }, func() {
+		if plugin {
+			lb := lexer.NewBuilder()
+			useBlockCommentPlugin(lb)
+			p := parser.NewBuilder(lb).Build(rd.Src)
+			prog, err := p.ParseProgram()
+			po = ParseOut{Prog: prog, Err: err, Errors: p.Errors()}
+			return
+		}
+		po = parse(rd.Src, Mode{})
+	}) {
 		return
 	}
 	if po.Err != nil {
 		t.Inconclusive("source not accepted (C02's business)", rd.Src)
 		return
+	}
+	// a sixth of the trees goes through a transformation pass first: every explicit grouping node is removed, so the
+	// printers insert the parentheses that are needed themselves. Whatever segments the map then has still link equal
+	// lexemes (parentheses the printer adds have no source position of their own).
+	if !plugin && r.IntN(6) == 0 {
+		var k int
+		if t.Guard("strip grouping nodes", nil, func() { k = stripGroups(po.Prog) }) && k > 0 {
+			t.Count("trees_with_grouping_nodes_removed_before_compiling", 1)
+		}
 	}
 	all := prettyCfgs()
 	cfgs := []Cfg{{}, CfgPretty, all[r.IntN(20)], all[r.IntN(20)]}
